@@ -27,7 +27,13 @@ REGISTRATION = {
             "Unlink removes the name in every spelling, Links() = disk, directory-tree frame condition of every operation; a share "
             "of the histories runs in cache directories whose path has glob metacharacters/spaces/non-ASCII; the real syscall "
             "trace of stores is compared with the model's effect list and checked for the noEarlyFull shape; blobs of 1-16 MiB "
-            "in the kill enumeration and the interleaving driver (L2 only).",
+            "in the kill enumeration and the interleaving driver (L2 only). Round 7: crashes folded into the whole-disk history "
+            "theorem (every history of complete disciplined operations and Put/Import/Resolve/Link each cut anywhere keeps every "
+            "blob trusted under its size; a stored blob stays retrievable), Resolve's read limit, negative sizes and manifests "
+            "written behind the cache's back inside the model (findings F28, F29 with witnesses and variant flags), all variant "
+            "facts obtained by executing the tree, fail-closed branch coverage. NOT claimed: the statement's combination of "
+            "faulty sources WITH concurrent writers (refuted: F9); `Get` alone is not the test - a crashed partial file is "
+            "reported present under its own length, the theorems speak of the size the digest is stored under.",
     "design_ref": "DESIGN.md §5 C08",
     "note": COMMON_NOTE + "Modelled, not verified: POSIX semantics of open/write/ftruncate/rename (program order = disk "
             "order, rename atomic, no torn write(2) other than a byte-prefix), io.Copy's 32 KiB buffering (scripts stay "
@@ -271,8 +277,11 @@ def run(ctx):
     ctx.assumptions += [
         "POSIX: effects of one process reach the disk in program order; rename(2) is atomic; a killed write(2) leaves a byte-prefix",
         "f.Close() and destination-file I/O errors do not occur (not injectable without editing the code)",
-        "manifests are smaller than Resolve's 1 MiB read limit; source chunks are smaller than io.Copy's 32 KiB buffer",
-        "sizes are non-negative",
+        "source chunks are smaller than io.Copy's 32 KiB buffer",
+        "history theorems with crashes: every digest is stored under one size (Put(d) is called with sz d; witnesses of what "
+        "happens otherwise: size_lie_after_crash_present_wrong_content, undisciplined_put_destroys_linked_blob)",
+        "Link's already-linked test is modelled on the whole manifest; the code hashes its first 1 MiB (differs only for an "
+        "oversize manifest whose prefix hashes to the digest asked for)",
     ]
     return ctx.finish(
         level="proof",
